@@ -1315,5 +1315,9 @@ def run(ctx):
         {"b": "span!(target: 'app::db', DEBUG, 's2', e = Empty) before any install", "log text": "s2;", "target": "app::db"},
         {"b": "enter of an INFO span before any install", "log text": "-> s1;", "target": "tracing::span::active", "level": "Trace"},
         {"b": "any of these after set_default / set_global_default (feature log)", "records": 0},
+        {"b": "worker 2 calls set_default; the MAIN thread (no default of its own) then emits info!", "records": 0, "has_been_set() on main": True},
+        {"b": "worker 1 stopped at yield point 72 inside set_global_default; main emits info!", "records": 1, "has_been_set() on main": False},
+        {"a": "ignore_all(['app']); records with target 'app', 'app::db', 'apple' -> 0 events; 'ap', 'App', 'xapp', ' app' -> 1"},
+        {"a": "LogTracer::builder().init() without with_max_level", "log::max_level()": "Trace"},
         {"configurations": len(cases_a), "histories": len(cases_b)}]
     return rep
